@@ -151,7 +151,7 @@ pub fn eval_doc(doc: &Doc) -> (Vec<Failure>, u64) {
                 if !range_ok && fails.len() < 40 {
                     fails.push(Failure {
                         key: format!("hover:{}{}:range", kind, builtin),
-                        case: doc.case(json!({"method": "hover", "pos": [pos.0, pos.1]})),
+                        case: doc.case(json!({"method": "textDocument/hover", "position": [pos.0, pos.1], "expected_range": doc.tok_range(o.tok), "expected_fragments": frags})),
                         detail: format!("range {:?}, identifier range {}", got.get("range"), doc.tok_range(o.tok)),
                     });
                 }
@@ -160,7 +160,7 @@ pub fn eval_doc(doc: &Doc) -> (Vec<Failure>, u64) {
                         let what = if e.contains("doc") && e.contains('$') && !frags.iter().take(frags.len() - 1).any(|f| !text.contains(f.as_str())) { "doc" } else { "signature" };
                         fails.push(Failure {
                             key: format!("hover:{}{}:{}", kind, builtin, what),
-                            case: doc.case(json!({"method": "hover", "pos": [pos.0, pos.1]})),
+                            case: doc.case(json!({"method": "textDocument/hover", "position": [pos.0, pos.1], "expected_range": doc.tok_range(o.tok), "expected_fragments": frags})),
                             detail: e,
                         });
                     }
@@ -201,7 +201,8 @@ pub fn eval_doc(doc: &Doc) -> (Vec<Failure>, u64) {
             let what = if problems.iter().any(|p| p.contains("active")) { "active-parameter" } else { "signature" };
             fails.push(Failure {
                 key: format!("signatureHelp:{}:{}", if builtin { "builtin" } else { "declared" }, what),
-                case: doc.case(json!({"method": "signatureHelp", "offset": p})),
+                case: doc.case(json!({"method": "textDocument/signatureHelp", "position": lsptext::position(doc.text(), p), "callee": call.callee,
+                    "expected_parameters": params.iter().map(param_text).collect::<Vec<_>>(), "expected_active": commas})),
                 detail: format!("call of {} at byte {}: {}", call.callee, p, problems.join("; ")),
             });
         }
@@ -248,11 +249,35 @@ pub fn run(tier: Tier) -> Report {
 
 pub fn replay(case: &Value) -> Vec<Failure> {
     let text = case["text"].as_str().unwrap_or("");
+    let rq = &case["request"];
+    let method = rq["method"].as_str().unwrap_or("");
     let mut s = Session::new(false);
     s.open(URI, text);
+    let id = rq["position"].as_array().map(|p| s.pos_request(method, URI, p[0].as_u64().unwrap_or(0) as u32, p[1].as_u64().unwrap_or(0) as u32));
     let o = s.run();
-    match o.error.or(o.frame_error) {
-        Some(e) => vec![Failure { key: "hover:error".into(), case: case.clone(), detail: e }],
-        None => vec![],
+    if let Some(e) = o.error.clone().or(o.frame_error.clone()) {
+        return vec![Failure { key: "hover:error".into(), case: case.clone(), detail: e }];
     }
+    let Some(id) = id else { return vec![] };
+    let got = o.responses().get(&id).and_then(|r| r.get("result").cloned()).unwrap_or(Value::Null);
+    let mut out = vec![];
+    if method.ends_with("hover") {
+        if got.get("range") != rq.get("expected_range") {
+            out.push(Failure { key: "hover:range".into(), case: case.clone(), detail: format!("range {:?}", got.get("range")) });
+        }
+        let frags: Vec<String> = rq["expected_fragments"].as_array().map(|a| a.iter().filter_map(|f| f.as_str().map(|s| s.to_string())).collect()).unwrap_or_default();
+        if let Err(e) = contains_in_order(got["contents"]["value"].as_str().unwrap_or(""), &frags) {
+            out.push(Failure { key: "hover:content".into(), case: case.clone(), detail: e });
+        }
+    } else {
+        let sig0 = &got["signatures"][0];
+        let ps: Vec<Value> = sig0["parameters"].as_array().map(|a| a.iter().map(|p| p["label"].clone()).collect()).unwrap_or_default();
+        let want: Vec<Value> = rq["expected_parameters"].as_array().cloned().unwrap_or_default();
+        let active = got.get("activeParameter").and_then(|v| v.as_u64());
+        let callee = rq["callee"].as_str().unwrap_or("");
+        if !sig0["label"].as_str().unwrap_or("").contains(&format!("proc {}(", callee)) || ps != want || (!want.is_empty() && active != rq["expected_active"].as_u64()) {
+            out.push(Failure { key: "signatureHelp".into(), case: case.clone(), detail: format!("got {}", got) });
+        }
+    }
+    out
 }
